@@ -130,7 +130,7 @@ func (s *serverSocket) Connected() bool {
 
 // release is called right before user code (middlewares, handlers) is entered. See serverConn.onParserFinish.
 func (s *serverSocket) onPacket(header *parser.PacketHeader, eventName string, decode parser.Decode, release func()) error {
-	s.connectionSlot.wait()
+	s.connectionSlot.waitFor(connectionGrace)
 
 	switch header.Type {
 	case parser.PacketTypeEvent, parser.PacketTypeBinaryEvent:
